@@ -16,7 +16,7 @@ LEVEL_TEXT = (
     'offers Drop only on a lossy network and Deliver only to existing actors, and at most the head of '
     'each ordered flow. Agreement of len()/iter_all() counts is arithmetic and is not decided.')
 
-FLOORS = {'C07-R1': 4, 'C07-R2': 7, 'C07-R3': 6, 'C07-R4': 4, 'C07-R5': 4, 'C07-R6': 3, 'C07-R7': 5, 'C06-R3': 10}
+FLOORS = {'C07-R1': 4, 'C07-R2': 7, 'C07-R3': 6, 'C07-R4': 4, 'C07-R5': 4, 'C07-R6': 3, 'C07-R7': 5, 'C07-R8': 1, 'C06-R3': 10}
 
 NET = 'actor::network::Network::<Msg>::'
 ORDER_BREAKING = ('VecDeque::swap_remove_back', 'VecDeque::swap_remove_front', 'Vec::swap_remove',
@@ -506,8 +506,85 @@ def r4_actions(ctx, F):
                   'Deliver site')
 
 
+def r8_names_and_parser_agree(ctx, F, rule='C07-R8'):
+    """The network kind is usually selected by name (`"unordered_nonduplicating".parse()`): the table behind
+    `Network::names()` (variant -> name) and the one behind `FromStr` (name -> constructor -> variant) are inverse."""
+    nb = [x for x in F.bodies.values() if 'Network' in x.path and 'names' in x.path and x.path.endswith('::next')]
+    fs = [x for x in F.bodies.values() if x.path.startswith('<actor::network::Network<') and
+          x.path.endswith('FromStr>::from_str')]
+    if len(nb) != 1 or len(fs) != 1:
+        raise AnchorMissing('Network::names iterator / FromStr::from_str (found %d / %d)' % (len(nb), len(fs)))
+    nb, fs = nb[0], fs[0]
+    ctx.touched(nb)
+    ctx.touched(fs)
+
+    def lit(v):
+        v = noref(v)
+        if v.kind == 'const' and isinstance(v.key, str) and v.key.startswith('dbg:"'):
+            return v.key[5:-1]
+        return None
+    # variant -> name
+    names = {}
+    sws = [sw for sw in nb.switches if sw.kind == 'variant' and
+           set(l for (l, t) in sw.edges if isinstance(l, str)) >= {'Ordered', 'UnorderedDuplicating',
+                                                                    'UnorderedNonDuplicating'}]
+    if len(sws) != 1:
+        raise AnchorMissing('Network::names: match on the network kind')
+    for (lab, t) in sws[0].edges:
+        if not isinstance(lab, str):
+            continue
+        blocks = nb.reach_under([(sws, lab)], [t])
+        lits = set()
+        for (i, si, st) in nb.assigns(lambda st: st['rv']['k'] == 'agg' and st['rv'].get('variant') == 'Some'):
+            if i in blocks and st['rv']['ops'] and lit(nb.val(st['rv']['ops'][0])) is not None:
+                lits.add(lit(nb.val(st['rv']['ops'][0])))
+        if len(lits) != 1:
+            raise AnchorMissing('Network::names: one name for kind %s (found %s)' % (lab, sorted(lits)))
+        names[lab] = next(iter(lits))
+
+    def variant_of_ctor(path, depth=0):
+        x = F.bodies.get(path)
+        if x is None or depth > 3:
+            return None
+        vs = set(st['rv'].get('variant') for (i, si, st) in x.assigns(
+            lambda st: st['rv']['k'] == 'agg' and st['rv'].get('adt') == 'actor::network::Network'))
+        if len(vs) == 1:
+            return next(iter(vs))
+        for c in x.calls:
+            if c.callee and c.callee.startswith(NET + 'new_') and c.callee != path:
+                v = variant_of_ctor(c.callee, depth + 1)
+                if v:
+                    return v
+        return None
+    # name -> constructor -> variant
+    parsed = {}
+    for c in fs.calls:
+        if not (c.short.endswith('str::traits::eq') or c.is_('PartialEq::eq', 'str::eq_ignore_ascii_case')):
+            continue
+        ls = [lit(fs.val(a)) for a in c.args[:2]]
+        ls = [l for l in ls if l is not None]
+        if len(ls) != 1:
+            continue
+        te = fs.branch(c, True)
+        ctors = [k for k in fs.calls if k.callee and k.callee.startswith(NET + 'new_') and te and
+                 fs.edges_dominate(te, k.bb)]
+        if len(ctors) == 1:
+            parsed[ls[0]] = variant_of_ctor(ctors[0].callee)
+    if len(parsed) < 3:
+        raise AnchorMissing('FromStr for Network: one constructor per compared name (resolved %d of 3)' % len(parsed))
+    bad = sorted('"%s" parses to %s, which names() calls "%s"' % (n, v, names.get(v)) for n, v in parsed.items()
+                 if names.get(v) != n)
+    ctx.check(not bad and set(parsed.values()) == set(names), rule, 'names-and-parser-agree', fs,
+              good='every name names() lists parses to the kind it names: %s' % sorted(parsed.items()),
+              bad='Network: names() and FromStr disagree (%s): a model that selects its network by name runs on another '
+                  'kind of network than the one selected' % bad)
+
+
 def run(ctx):
     F = ctx.facts
+    ctx.doc('C07-R8', 'names() (kind -> name) and FromStr (name -> constructor -> kind) are inverse tables')
+    with ctx.rule('C07-R8', 'names'):
+        r8_names_and_parser_agree(ctx, F)
     ctx.doc('C07-R1', 'every Iterator::next impl: each path that yields makes progress (store through self or '
                       '&mut self.* handed to a callee)')
     ctx.doc('C07-R2', 'per-variant effect kinds of on_deliver / on_drop / send (duplicating keeps vs removes; '
